@@ -397,8 +397,17 @@ func c09R3(c *Ctx) {
 		}
 		// (b) danglings: the result of the delete step, or of graph.Remove where that step is inlined
 		var dangSources []ssa.Value
+		// … when the delete step hands graph.Remove's result on unfiltered (otherwise it filters itself and is judged as a host)
+		rawResult := false
+		for _, a := range RetAtoms(h.deleteOne, 0) {
+			for _, rc := range CallsTo(h.deleteOne, c09nRemove) {
+				if v := rc.Value(); v != nil && (Aliases(v)[a.Val] || c09Resolved(a.Val) == v) {
+					rawResult = true
+				}
+			}
+		}
 		for _, dc := range delCalls {
-			if dang := ResultOf(dc, 0); dang != nil {
+			if dang := ResultOf(dc, 0); dang != nil && rawResult {
 				dangSources = append(dangSources, dang)
 			}
 		}
@@ -773,6 +782,7 @@ func c09R3Remove(c *Ctx, R3 string) {
 				})
 				// … or the set became empty according to a helper of the package that
 				// returns true only when len(predecessors[key]) == 0
+				presenceHelpers := map[*ssa.Function]bool{}
 				te, _ := c09BoolCallEdges(f, func(call *ssa.Call, g *ssa.Function) (int, bool) {
 					if g.Signature.Results().Len() == 0 || !inModule(g) {
 						return 0, false
@@ -814,7 +824,43 @@ func c09R3Remove(c *Ctx, R3 string) {
 							}
 						})
 						for idx := 0; idx < g.Signature.Results().Len(); idx++ {
-							if types.Identical(g.Signature.Results().At(idx).Type(), types.Typ[types.Bool]) && (c09TrueImplies(g, idx, guards, nil) || c09IsLenZeroResult(g, idx, sets)) {
+							if !types.Identical(g.Signature.Results().At(idx).Type(), types.Typ[types.Bool]) {
+								continue
+							}
+							if c09TrueImplies(g, idx, guards, nil) || c09IsLenZeroResult(g, idx, sets) {
+								return idx, true
+							}
+							// `…; _, exists := m.nodes[key]; return exists` past the len == 0 edge: true implies both guards
+							isPresence := func(v ssa.Value) bool {
+								ex, ok := v.(*ssa.Extract)
+								if !ok || ex.Index != 1 {
+									return false
+								}
+								lk, ok := ex.Tuple.(*ssa.Lookup)
+								if !ok || !c09IsLoadOfField(lk.X, mem, "nodes") {
+									return false
+								}
+								pf, pi := c09ParamOf(lk.Index)
+								return pf == g && pi == i
+							}
+							okAll, anyPresence := len(guards) > 0, false
+							for _, a := range RetAtoms(g, idx) {
+								if cst, isC := a.Val.(*ssa.Const); isC && cst.Value != nil && cst.Value.String() == "false" {
+									continue
+								}
+								if isPresence(a.Val) {
+									anyPresence = true
+								} else if cst, isC := a.Val.(*ssa.Const); !isC || cst.Value == nil {
+									okAll = false
+								}
+								if !AtomMustPass(a, newCut().Edges(guards...)) {
+									okAll = false
+								}
+							}
+							if okAll {
+								if anyPresence {
+									presenceHelpers[g] = true
+								}
 								return idx, true
 							}
 						}
@@ -822,6 +868,9 @@ func c09R3Remove(c *Ctx, R3 string) {
 					return 0, false
 				})
 				empty = append(empty, te...)
+				if len(presenceHelpers) > 0 {
+					present = append(present, te...) // the helper's true also means "is a node"
+				}
 				ok := c09Guarded(ap.(ssa.Instruction), empty)
 				c.Check(R3, fn+"|dangling-only-without-predecessors", ap.Pos(), ok, ifelse(ok, "a successor is reported dangling only on the len(predecessors[successor]) == 0 edge", "a successor is reported as dangling although other nodes may still point to it (it would be deleted under a surviving parent)"))
 				ok = c09Guarded(ap.(ssa.Instruction), present)
@@ -1022,6 +1071,11 @@ func c09R3IsTagged(c *Ctx, R3 string, h *c09Helpers) {
 				}
 			}
 			c.Check(R3, key, f.Pos(), ok, ifelse(ok, "tagged iff the tag set, with the descriptor's own digest removed, is not empty", why))
+			return
+		}
+		// alternative shape: a search for a tag other than the own digest — `for tag := range tagSet { if tag != self { return true } }; return false`
+		if ok, decided := c09IsTaggedBySearch(f, set, desc); decided {
+			c.Check(R3, key, f.Pos(), ok, ifelse(ok, "tagged iff some element of the tag set differs from the descriptor's own digest", "the search over the tag set does not answer true exactly for a tag other than the descriptor's own digest"))
 			return
 		}
 		c.Violation(R3, key, f.Pos(), "isTagged does not test whether the tag set contains the descriptor's own digest: every manifest pushed through Store.Push is tagged by its digest, so every dangling manifest would count as tagged and auto-GC would never remove one (or, if the set size is ignored, would remove tagged ones)")
@@ -1503,6 +1557,87 @@ func c09PredIs(pred ssa.Value, target *ssa.Function) bool {
 		}
 	}
 	return true
+}
+
+// c09IsTaggedBySearch: f loops over the keys of the tag set and answers true as
+// soon as (and only when) it meets a key different from the descriptor's own
+// digest; false after the loop.
+func c09IsTaggedBySearch(f *ssa.Function, set map[ssa.Value]bool, desc c09DescObj) (ok, decided bool) {
+	for _, it := range c09ItersIn(f) {
+		if it.Coll == nil || it.Key == nil || !(set[it.Coll] || set[c09Resolved(it.Coll)]) {
+			continue
+		}
+		decided = true
+		var neq []Edge
+		for _, i := range Ifs(it.Fn) {
+			if !it.InBody(i) {
+				continue
+			}
+			cond, t, fe := ifEdges(i)
+			bo, isBo := cond.(*ssa.BinOp)
+			if !isBo || (bo.Op != token.EQL && bo.Op != token.NEQ) {
+				continue
+			}
+			if (c09SameKey(bo.X, it.Key) && c09DigestString(desc, bo.Y)) || (c09SameKey(bo.Y, it.Key) && c09DigestString(desc, bo.X)) {
+				if bo.Op == token.EQL {
+					neq = append(neq, fe)
+				} else {
+					neq = append(neq, t)
+				}
+			}
+		}
+		if len(neq) == 0 {
+			return false, true
+		}
+		// where the answer "true" is produced
+		var trues []ssa.Instruction
+		if it.Loop != nil {
+			for _, r := range Returns(it.Fn) {
+				if cst, isC := r.Results[0].(*ssa.Const); isC && cst.Value != nil && cst.Value.String() == "true" {
+					trues = append(trues, r)
+				}
+			}
+		} else {
+			AllInstrs(it.Fn, func(in ssa.Instruction) {
+				if st, isSt := in.(*ssa.Store); isSt {
+					if _, isFV := st.Addr.(*ssa.FreeVar); isFV {
+						if cst, isC := st.Val.(*ssa.Const); isC && cst.Value != nil && cst.Value.String() == "true" {
+							trues = append(trues, st)
+						}
+					}
+				}
+			})
+		}
+		if len(trues) == 0 {
+			return false, true
+		}
+		ok = true
+		for _, tr := range trues { // only for another tag
+			if reach(it.Fn.Blocks[0], 0, tr, newCut().Edges(neq...)) {
+				ok = false
+			}
+		}
+		for _, e := range neq { // and for every other tag
+			if it.ContinuesWithout(e.To, 0, newCut().Instr(trues...)) {
+				ok = false
+			}
+		}
+		// after the loop the answer is false (or the variable the body stores into)
+		for _, a := range RetAtoms(f, 0) {
+			if cst, isC := a.Val.(*ssa.Const); isC && cst.Value != nil {
+				continue
+			}
+			if _, isZero := a.Val.(zeroMarker); isZero {
+				continue
+			}
+			if ld, isLd := a.Val.(*ssa.UnOp); isLd && ld.Op == token.MUL {
+				continue
+			}
+			ok = false
+		}
+		return ok, true
+	}
+	return false, false
 }
 
 // c09LenThreshold: v is `len(set) OP k`; returns t such that v == (len(set) >= t).
@@ -2104,7 +2239,7 @@ func c09R4GcIndex(c *Ctx, R4 string, h *c09Helpers) {
 		if c09IsYieldBody(f) {
 			continue // reached through the loop statement of its parent
 		}
-		for _, p := range c08Passes(f, maps) {
+		for _, p := range c08Passes(c.P, f, maps) {
 			p := p
 			k, obj, body := p.k, p.obj, p.fn
 			inObj := func(v ssa.Value) bool {
@@ -2133,15 +2268,15 @@ func c09R4GcIndex(c *Ctx, R4 string, h *c09Helpers) {
 			}
 			tagRef := inBody(c09EffectSites(body, c09Identity, func(call ssa.CallInstruction, bind c09Bind) bool {
 				a := call.Common().Args
-				return CalleeName(call) == c09nTag && len(a) == 4 && k != nil && isNew(bind(a[0]), newRes) && bind(a[3]) != nil && c09SameKey(bind(a[3]), k) && inObj(bind(c09CellOrValue(a[2])))
+				return CalleeName(call) == c09nTag && len(a) == 4 && k != nil && (isNew(bind(a[0]), newRes) || isNew(a[0], newRes)) && bind(a[3]) != nil && c09SameKey(bind(a[3]), k) && inObj(bind(c09CellOrValue(a[2])))
 			}, 2))
 			tagDg := inBody(c09EffectSites(body, c09Identity, func(call ssa.CallInstruction, bind c09Bind) bool {
 				a := call.Common().Args
-				return CalleeName(call) == c09nTag && len(a) == 4 && isNew(bind(a[0]), newRes) && digestStringOfObj(a[3], bind)
+				return CalleeName(call) == c09nTag && len(a) == 4 && (isNew(bind(a[0]), newRes) || isNew(a[0], newRes)) && digestStringOfObj(a[3], bind)
 			}, 2))
 			idx := inBody(c09EffectSites(body, c09Identity, func(call ssa.CallInstruction, bind c09Bind) bool {
 				a := call.Common().Args
-				return CalleeName(call) == c09nIndexAll && len(a) == 4 && isNew(bind(a[0]), newGraph)
+				return CalleeName(call) == c09nIndexAll && len(a) == 4 && (isNew(bind(a[0]), newGraph) || isNew(a[0], newGraph))
 			}, 2))
 			lpos := p.it.Stmt.Pos()
 			if p.l != nil {
@@ -2179,7 +2314,9 @@ func c09R4GcIndex(c *Ctx, R4 string, h *c09Helpers) {
 						return 0, false
 					}
 					gb := c09HelperBind(call, g, c09Identity)
-					inner, _, _ := CallTests(g, c09nExists, func(x *ssa.Call) bool { return isNew(gb(x.Call.Args[0]), newGraph) })
+					inner, _, _ := CallTests(g, c09nExists, func(x *ssa.Call) bool {
+						return isNew(gb(x.Call.Args[0]), newGraph) || isNew(x.Call.Args[0], newGraph)
+					})
 					for ri := 0; ri < g.Signature.Results().Len(); ri++ {
 						if types.Identical(g.Signature.Results().At(ri).Type(), types.Typ[types.Bool]) && len(inner) > 0 && c09TrueImplies(g, ri, inner, nil) {
 							return ri, true
